@@ -48,6 +48,8 @@ def redeclare(mb: bytes, spec, mode: str):
                 name = f"?{len(symbols)}"
             elif mode == "lead":
                 name = by_size.setdefault(size, f"N{len(by_size)}") if ax == 0 else None
+            elif mode == "lead_unnamed":
+                name = f"?{len(symbols)}" if ax == 0 else None
             else:
                 raise ValueError(mode)
             if name is None:
@@ -150,6 +152,22 @@ def shape_models():
         h.n("Reshape", ["x", "s"], "y")
         h.out("y")
         out.append(h.build())
+        h = H(f"Add(e, e) with e = Expand(x, Shape(y)) x,y={list(xs)}")
+        h.inp("x", F, xs)
+        h.inp("y", F, xs)
+        h.n("Shape", ["y"], "s")
+        h.n("Expand", ["x", "s"], "e")
+        h.n("Add", ["e", "e"], "z")
+        h.out("z")
+        out.append(h.build())
+        h = H(f"Reshape(x, Shape(y)) then Neg x,y={list(xs)}")
+        h.inp("x", F, xs)
+        h.inp("y", F, xs)
+        h.n("Shape", ["y"], "s")
+        h.n("Reshape", ["x", "s"], "r")
+        h.n("Neg", ["r"], "z")
+        h.out("z")
+        out.append(h.build())
         h = H(f"Add(Expand(x, Shape(y)), y) x,y={list(xs)}")
         h.inp("x", F, xs)
         h.inp("y", F, xs)
@@ -247,7 +265,7 @@ def main(tier: str, only=None) -> int:
             onnx.checker.check_model(onnx.load_from_string(mb))
         except Exception:  # noqa: BLE001
             continue
-        modes = ["shared", "distinct", "unnamed", "lead"] if (tier == "thorough" or fams[0] == "shape") else [r.choice(["shared", "distinct", "unnamed", "lead"])]
+        modes = ["shared", "distinct", "unnamed", "lead", "lead_unnamed"] if (tier == "thorough" or fams[0] == "shape") else [r.choice(["shared", "distinct", "unnamed", "lead", "lead_unnamed"])]
         for mode in modes:
             smb, symspec, symbols = redeclare(mb, spec, mode)
             if not symbols or len(symbols) > 3:
